@@ -518,6 +518,80 @@ fn between_matrix(rep: &mut Report, dev: &Rules) {
     }
 }
 
+// ------------------------------------------------------------------ zone-boundary matrix
+
+/// Fixed graph for the boundary cells of C08 and C11: `x` is an Int in 1..=5 and `y` a Float in
+/// 0.5..=2.5 on every :P node and on as many unlabelled nodes (store-wide min/max = 1/5 and
+/// 0.5/2.5); one unlabelled node has neither, one has a string under `x`.
+pub fn boundary_graph() -> GraphSpec {
+    let mut nodes = Vec::new();
+    let mut uid = 0;
+    for lab in ["P", ""] {
+        for i in 1..=5 {
+            uid += 1;
+            nodes.push(format!("{uid}/{lab}/x={i},y={:?}", i as f64 * 0.5));
+        }
+    }
+    nodes.push(format!("{}//", uid + 1));
+    nodes.push(format!("{}//x='s'", uid + 2));
+    parse_graph(&nodes.join(";"))
+}
+
+/// (key, literals at: below min, min, just inside, just inside, max, above max)
+pub fn boundary_literals() -> Vec<(&'static str, Vec<grafeo_common::types::Value>)> {
+    use grafeo_common::types::Value;
+    vec![
+        ("x", [0, 1, 2, 4, 5, 6].iter().map(|i| Value::Int64(*i)).collect()),
+        ("y", [0.0, 0.5, 1.0, 2.0, 2.5, 3.0].iter().map(|f| Value::Float64(*f)).collect()),
+    ]
+}
+
+/// Directed matrix, run on every invocation: every comparison operator, literal-first and
+/// property-first, against literals exactly at, just inside and just outside the store-wide
+/// minimum and maximum of the property, over a bare and a labelled node scan, GQL and Cypher
+/// (the planner's zone-map pre-check and range path decide on exactly these bounds).
+fn zone_boundary_matrix(rep: &mut Report, dev: &Rules) {
+    let g = boundary_graph();
+    let b = build(&g);
+    for (key, lits) in boundary_literals() {
+        for c in &lits {
+            for op in [CmpOp::Eq, CmpOp::Ne, CmpOp::Lt, CmpOp::Le, CmpOp::Gt, CmpOp::Ge] {
+                for lit_left in [true, false] {
+                    for labelled in [false, true] {
+                        let mut q = base_query(0);
+                        if labelled {
+                            q.nodes[0].labels = vec!["P".into()];
+                        }
+                        let prop = Term::Prop(Var::N(0), key.into());
+                        q.pred = Some(if lit_left { Pred::Cmp(op, Term::Const(c.clone()), prop) } else { Pred::Cmp(op, prop, Term::Const(c.clone())) });
+                        q.ret = Ret::Plain { items: vec![Proj::Prop(Var::N(0), "uid".into())], distinct: false };
+                        let cell = format!("{}|{}", if labelled { "label_scan" } else { "scan" }, render::pred_text(q.pred.as_ref().unwrap()).replace("n0.", ""));
+                        for lang in [Lang::Gql, Lang::Cypher] {
+                            let (v, text) = verdict(&b, &q, lang, dev);
+                            rep.eval();
+                            rep.nontrivial(hash_str(&format!("zone|{cell}")));
+                            match v {
+                                Verdict::Agree => rep.count(&format!("zone_boundary_matrix.agree.{}", lang.name()), 1),
+                                Verdict::Known(rules) => {
+                                    for r in rules {
+                                        rep.count(&format!("zone_boundary_matrix.explained_by.{}", eval::rule_id(r)), 1);
+                                        rep.known_rule(eval::rule_id(r), &format!("cell {cell} {}: {text}", lang.name()));
+                                    }
+                                }
+                                Verdict::Mismatch(kind, detail) => rep.deviation(
+                                    &format!("zone_boundary|{}|{cell}|{kind}", lang.name()),
+                                    json!({"query": text, "graph": "x = 1..5 (Int) and y = 0.5..2.5 (Float) on five :P and five unlabelled nodes, one node without both, one with x = 's'", "observed_vs_expected": detail}),
+                                ),
+                                other => rep.count(&format!("zone_boundary_matrix.not_judged.{}", format!("{other:?}").split('(').next().unwrap_or("x")), 1),
+                            }
+                        }
+                    }
+                }
+            }
+        }
+    }
+}
+
 // ------------------------------------------------------------------ driver
 
 fn case(seed: u64, i: u64, big: bool, dev: &Rules) -> CaseOut {
@@ -528,11 +602,18 @@ fn case(seed: u64, i: u64, big: bool, dev: &Rules) -> CaseOut {
     let cfg = if big { GenCfg { max_hops: 2, p_varlen: 0.05, ..GenCfg::default() } } else { GenCfg::default() };
     // three generator modes: the whole core (mostly GQL/Cypher), and the narrower subsets that
     // Gremlin and GraphQL can express (so that those front ends are exercised as well)
-    let q = match if big { 0 } else { i % 10 } {
+    let mut q = match if big { 0 } else { i % 10 } {
         0..=5 => gen_query(&mut qr, &cfg),
         6..=8 => gen_gremlin_query(&mut qr),
         _ => gen_graphql_query(&mut qr),
     };
+    // a quarter of the predicates of the full-core mode get literals at the bounds of the
+    // graph's actual values and literal-first spellings
+    if matches!(if big { 0 } else { i % 10 }, 0..=5) && qr.chance(0.25) {
+        if let Some(p) = q.pred.as_mut() {
+            sharpen_pred(p, &|k| graph::key_bounds(&g, k), &mut qr);
+        }
+    }
     process(&g, &q, dev, &mut out, if big { "big" } else { "small" });
     out
 }
@@ -712,6 +793,7 @@ pub fn assumptions() -> Vec<String> {
         "not generated because every front end rejects it with Err (re-checked by probes on each run): UNION ALL in Cypher / union() in Gremlin (GQL accepts the text but ignores the second branch: C11-F28), grouping by type()/labels()/id(), arithmetic in RETURN, ORDER BY a group key in an aggregating RETURN, ORDER BY id()/type()/labels(), Gremlin repeat()/select().by()".into(),
         "Gremlin subset: linear traversal, has()/hasNot()/hasLabel() per vertex (conjunctions of single-property tests), values()/id()/label() of the last vertex, dedup, one order().by(key), skip/limit, one ungrouped aggregate; GraphQL subset: root type = label, nested fields = outgoing typed edges, where-arguments (conjunctions), scalar property selections, orderBy/skip/first on the root".into(),
         "directed range-pair matrix on every run (3072 cells): all ordered pairs of two range comparisons on one property in every spelling, Int/Float/mixed bounds, over a bare and a labelled node scan, below and after a one-hop expand, GQL and Cypher; values at, just below and just above both bounds".into(),
+        "directed zone-boundary matrix on every run (576 cells): all six comparison operators, literal-first and property-first, against literals at / just inside / just outside the store-wide min and max of an Int and a Float property, bare and labelled scan, GQL and Cypher; a quarter of the random full-core predicates are re-written with such boundary literals taken from the generated graph and literal-first spellings".into(),
         "limits (DESIGN L): only the generated core — a single path pattern with 0-3 hops; no OPTIONAL MATCH, WITH chains, subqueries, list comprehensions, path functions; epoch-0 data only".into(),
     ]
 }
@@ -739,6 +821,7 @@ pub fn run(tier: Tier, seed: u64) -> ! {
         merge(&mut rep, out);
     }
     between_matrix(&mut rep, &dev);
+    zone_boundary_matrix(&mut rep, &dev);
     let n: u64 = std::env::var("C08_CASES").ok().and_then(|s| s.parse().ok()).unwrap_or(tier.pick(1500, 150_000));
     let nbig: u64 = tier.pick(24, 2000);
     let th = threads();
